@@ -108,7 +108,7 @@ def run(sd, props, tier="quick"):
     finally:
         rmwt(wt)
         shutil.rmtree(outdir, ignore_errors=True)
-        if ".pyx" in open(patch).read():
+        if True:   # always: a run against a patched tree may have regenerated lean/GSV/Gen (kernels or formulas)
             # the run regenerated lean/GSV/Gen from the patched kernels: restore the translation of /repo's own sources
             sh([PY, "-c", "import sys; sys.path.insert(0, %r); import core; core.regenerate(core.Ctx('restore', 'quick', 0))"
                 % os.path.join(VERIF, "vlib")], env={k: v for k, v in os.environ.items() if k not in ("GSV_REPO", "GSV_OUT")}, cwd=VERIF)
